@@ -22,6 +22,7 @@ import multiprocessing
 import os
 import signal
 import time
+import traceback
 from pathlib import Path
 
 from . import base  # noqa: F401  (numpy shim first)
@@ -136,7 +137,8 @@ def gen_ops(dump, keys, cidx: int, can_commit: bool, level: int = 1, attr_keys=N
 
     level 0 (quick BFS)    per group only the first fresh child key as creation target, one attribute key,
                            copy/move destinations: first fresh root key, first fresh child of one other group,
-                           (copy only) every fresh child of the source group itself (= copy into own subtree).
+                           (copy only) every fresh child of the source group itself (= copy into own subtree) and
+                           one deeper own-subtree destination whose parent is missing as well.
     level 1 (thorough BFS) every fresh child of every group + one deep fresh path (missing intermediate) per group,
                            copy/move to every fresh child of every group.
     level 2 (random walks) level 1 + second attribute key + all failing classes per node.
@@ -227,7 +229,7 @@ def gen_ops(dump, keys, cidx: int, can_commit: bool, level: int = 1, attr_keys=N
         if selfcopy:
             for d in own:
                 ops.append(["copy", src, d])  # copy into own subtree: inside the property's quantifier
-            if level >= 1 and own and _depth(own[0]) < MAX_DEPTH:
+            if own and _depth(own[0]) < MAX_DEPTH:  # own subtree, destination parent missing as well
                 ops.append(["copy", src, _join(own[0], keys[0])])
         if fails:
             ex = next((p for p in real if p != src and not under("/" + p, "/" + src)), None)
@@ -355,8 +357,6 @@ def lockstep(rec, ref, op, d_before, timeout=OP_TIMEOUT_S):
             s.evals.append((True, "tree-mismatch", "", ""))
             sv, sf = sorted(map(tuple, v_rec)), sorted(map(tuple, s.v_ref))
             s.evals.append((sv == sf, "visit-mismatch", f"after {op}: visititems lists {v_rec}, single tree lists {s.v_ref}", ""))
-            if sv == sf and v_rec != s.v_ref:
-                s.evals.append((True, "visit-order-note", f"visit order differs: {v_rec} vs {s.v_ref}", ""))
     return s
 
 
@@ -525,7 +525,7 @@ def _seen_at_level_start(path):
     return _SEEN_CACHE[path]
 
 
-def expand_state(args):
+def _expand_state(args):
     """Worker: expand ONE frontier state. args = dict(history, root, keys, level, max_containers, check, selfcopy, fails).
 
     Returns dict(history, succ=[(op, changed, key|None, nontrivial)], evals, fails=[(history+op, fail)]).
@@ -608,6 +608,14 @@ def expand_state(args):
             _rm(d)
 
 
+def expand_state(args):
+    """Crash-safe wrapper (a crash of the harness itself is reported as a note, never as a violation)."""
+    try:
+        return _expand_state(args)
+    except Exception:  # noqa
+        return {"history": args["history"], "succ": [], "evals": 0, "fails": [], "nops": 0, "skipped": False, "crash": traceback.format_exc()[-1500:]}
+
+
 def n_workers() -> int:
     try:
         n = len(os.sched_getaffinity(0))
@@ -671,6 +679,7 @@ def bfs(pool: Pool, root: Path, keys, level, max_len, max_containers, deadline, 
     levels = []
     complete_len = 0
     partial = None
+    crashes = []
     for depth in range(max_len):
         if not frontier:
             break
@@ -687,6 +696,8 @@ def bfs(pool: Pool, root: Path, keys, level, max_len, max_containers, deadline, 
         for res in pool.imap(expand_state, tasks):
             if res["skipped"]:
                 continue
+            if res.get("crash"):
+                crashes.append(res["crash"])
             done += 1
             nsucc += len(res["succ"])
             if on_result is not None:
@@ -703,7 +714,7 @@ def bfs(pool: Pool, root: Path, keys, level, max_len, max_containers, deadline, 
             break
         complete_len = depth + 1
         frontier = nxt
-    return {"states": seen, "levels": levels, "complete_len": complete_len, "partial": partial}
+    return {"states": seen, "levels": levels, "complete_len": complete_len, "partial": partial, "crashes": crashes}
 
 
 # ---------------------------------------------------------------------------------------------------------------------
@@ -715,7 +726,7 @@ RANDOM_VALUES = [
 ]  # fmt: skip   (np.void(b'\x7f') itself is excluded: documented IH5 restriction)
 
 
-def random_walk(args):
+def _random_walk(args):
     """Worker: one seeded random walk with all checks; returns dict(history, evals, fails, steps)."""
     seed, idx, length, keys, max_containers, root = args["seed"], args["idx"], args["length"], args["keys"], args["max_containers"], Path(args["root"])
     selfcopy = args["selfcopy"]
@@ -776,6 +787,13 @@ def random_walk(args):
         _safe_close(rec, commit=False)
         ref.close()
         _rm(d)
+
+
+def random_walk(args):
+    try:
+        return _random_walk(args)
+    except Exception:  # noqa
+        return {"history": [], "evals": 0, "fails": [], "steps": 0, "idx": args["idx"], "crash": traceback.format_exc()[-1500:]}
 
 
 def _would_succeed(ref, op) -> bool:
